@@ -1,6 +1,7 @@
 import NanoVerif.Model.Bitmap
 import NanoVerif.Proofs.Basic
 import Mathlib.Tactic.NormNum
+import NanoVerif.Proofs.TrBitmap
 /-
 C14 — Bitmap glyphs carry the right image at the right place.
 Model: `Model/Bitmap.lean`.
